@@ -1,6 +1,6 @@
-(* C04 -- sFlow v5 wire decoding is exact.  Statements only; proofs in Proofs/PacketP.v. *)
+(* C04 -- sFlow v5 wire decoding is exact.  Statements only; proofs in Proofs/SFlowRT.v, Proofs/PacketP.v. *)
 From Coq Require Import List NArith Bool.
-From GF Require Import Base.Res Base.Bytes Base.Gen Model.SFlow Spec.EncSFlow Proofs.PacketP.
+From GF Require Import Base.Res Base.Bytes Base.Gen Model.SFlow Spec.EncSFlow Spec.WfSFlow Proofs.PacketP Proofs.SFlowRT.
 Import ListNotations.
 Open Scope N_scope.
 
@@ -19,9 +19,33 @@ Theorem c04_string_padding : forall s rest,
 Proof. exact rd_string_enc. Qed.
 Print Assumptions c04_string_padding.
 
-(* the datagram round trip decode (encode S) = S is NOT proved for all S (c04_roundtrip of
-   DESIGN.md); it is checked by evaluation on generated datagrams here and by the correspondence
-   run of every check.  Named _partial accordingly. *)
+(* THE PROPERTY: EVERY well-formed abstract datagram -- any number of samples up to the decoder's cap of
+   1000, all five sample formats, every record kind of Model/SFlow.v (raw header, sampled Ethernet / IPv4 /
+   IPv6, extended switch / router / gateway with 0 or 1 AS-path segment and communities, egress queue, ACL,
+   function, generic interface and Ethernet counters) and records of unknown format, IPv4 or IPv6 agents,
+   strings of any length with XDR padding -- decodes to exactly what was encoded.  wf_spkt (Spec/WfSFlow.v)
+   is the boolean well-formedness of the abstract value: 32-bit words fit 32 bits, length words are the
+   lengths the independent encoder emits, counts are the list lengths, addresses are 4 or 16 bytes. *)
+Theorem c04_roundtrip : forall p, wf_spkt p = true -> decode_sf (encode_sf p) = Ok p.
+Proof. exact sflow_roundtrip. Qed.
+Print Assumptions c04_roundtrip.
+
+(* so two different well-formed datagrams never share an encoding *)
+Theorem c04_encode_injective : forall p q, wf_spkt p = true -> wf_spkt q = true -> encode_sf p = encode_sf q -> p = q.
+Proof.
+  intros p q Hp Hq E. pose proof (c04_roundtrip p Hp) as A. rewrite E, (c04_roundtrip q Hq) in A. congruence.
+Qed.
+Print Assumptions c04_encode_injective.
+
+(* non-vacuity: the datagrams the check sends to the real decoder lie inside the theorem's domain, and
+   they are not trivial (the first one has samples with records) *)
+Example c04_generated_are_wf :
+  forallb (fun i => wf_spkt (gcase gen_spkt 1 i)) [0;1;2;3;4;5;6;7;8;9;10;11;12;13;14;15;16;17;18;19] = true /\
+  forallb (fun i => wf_spkt (gcase gen_spkt 2 i)) [0;1;2;3;4;5;6;7;8;9] = true /\
+  existsb (fun s => negb (match sRecs s with [] => true | _ => false end)) (kSamples (gcase gen_spkt 1 0)) = true.
+Proof. vm_compute. repeat split. Qed.
+
+(* the extracted decoder agrees with the evaluation inside Coq on generated datagrams *)
 Definition rt_ok (p : spkt) : bool := toks_eqb (show_sf (decode_sf (encode_sf p))) (show_sf (Ok p)).
-Example c04_roundtrip_partial : forallb rt_ok (map (gcase gen_spkt 1) [0;1;2;3;4;5;6;7;8;9]) = true.
+Example c04_roundtrip_eval : forallb rt_ok (map (gcase gen_spkt 1) [0;1;2;3;4;5;6;7;8;9]) = true.
 Proof. vm_compute. reflexivity. Qed.
